@@ -1,0 +1,11 @@
+//go:build verif
+
+// Verification hooks: thin exported wrappers around unexported functions.
+// Compiled only with `-tags verif`; they add no behaviour.
+
+package chore
+
+// VerifUpdateRules exposes updateRules.
+func VerifUpdateRules(version string, year string, contents []byte) ([]byte, error) {
+	return updateRules(version, year, contents)
+}
